@@ -18,6 +18,18 @@ PROPERTIES = {
                       "allow_unsupported": ["non-ASCII byte"]}],
         "bounds": {}, "outside": [], "assumptions": [],
     },
+    "C09": {
+        "level": "model_checking",
+        "quick": [{"match": "VerifH_c09_.*", "timeout": 600, "shards": 4}],
+        "thorough": [{"match": "VerifH_c09_.*", "timeout": 3000, "shards": 12}],
+        "bounds": {}, "outside": [], "assumptions": [],
+    },
+    "C10": {
+        "level": "model_checking",
+        "quick": [{"match": "VerifH_c10_.*", "timeout": 600, "shards": {"VerifH_c10_watch": 4}, "sharddepth": 8}],
+        "thorough": [{"match": "VerifH_c10_.*", "timeout": 3000, "shards": {"VerifH_c10_watch": 6}, "sharddepth": 8}],
+        "bounds": {}, "outside": [], "assumptions": [],
+    },
     "C13": {
         "level": "model_checking",
         "quick": [{"match": "VerifH_c13_.*", "timeout": 600, "allow_unsupported": ["ParseFloat of symbolic text"]}],
